@@ -740,6 +740,24 @@ func (w *worldExec) delegate(s *DlgSpec) {
 		o.Violate("C07", "seal-failed", fmt.Sprintf("delegation %s by %s cannot be sealed: %v", s.Label, w.cast[s.Iss%len(w.cast)].Alg, err), map[string]string{"alg": w.cast[s.Iss%len(w.cast)].Alg})
 		return
 	}
+	if s.RawNbf != 0 {
+		env, oerr := openEnvelope(sealed)
+		if oerr != nil {
+			return
+		}
+		env.payload.MapSet("nbf", cbUint(uint64(s.RawNbf)))
+		if env.resign(ent.priv) != nil {
+			return
+		}
+		sealed = env.bytes()
+		s2 := *s
+		s2.Nbf = ptr(s.RawNbf - simEpochUnix)
+		a := &artefact{label: s.Label, kind: "dlg", sealed: sealed, cid: harnessCID(sealed), dspec: &s2, bornNS: nowNS()}
+		w.outbox[s.Label] = a
+		w.ledger[cidHex(a.cid)] = a
+		o.Logf("delegate %s (raw not-before) cid=%s len=%d", s.Label, cidHex(a.cid)[:16], len(sealed))
+		return
+	}
 	if s.RawCmd != "" {
 		// a deviating issuer signs what no constructor would let through: the command text is
 		// rewritten in the sealed bytes and the envelope signed again with the issuer's real key
@@ -1097,6 +1115,35 @@ func (b jsonLoader) GetDelegation(c cid.Cid) (*delegation.Token, error) {
 	return d, nil
 }
 
+// streamLoader is an executor that received every delegation of its store as a stream of its own
+// (a source that hands over its last chunk together with io.EOF, as HTTP bodies do) and filed it
+// under the CID the stream reader reported.
+type streamLoader struct {
+	w     *worldExec
+	byCID map[string]*delegation.Token
+}
+
+func (b *streamLoader) GetDelegation(c cid.Cid) (*delegation.Token, error) {
+	if b.byCID == nil {
+		b.byCID = map[string]*delegation.Token{}
+		for want := range b.w.store {
+			rec, ok := b.w.ledger[cidHex(want.Bytes())]
+			if !ok || rec.kind != "dlg" {
+				continue
+			}
+			guard(b.w.o, "delegation.FromSealedReader", func() {
+				if d, got, err := delegation.FromSealedReader(newSimReader(rec.sealed, []int{64}, true, ReadFault{})); err == nil && d != nil {
+					b.byCID[cidHex(got.Bytes())] = d
+				}
+			})
+		}
+	}
+	if d, ok := b.byCID[cidHex(c.Bytes())]; ok {
+		return d, nil
+	}
+	return nil, delegation.ErrDelegationNotFound
+}
+
 func (w *worldExec) decideOne(label string, c *CheckSpec, useHook bool) decision {
 	return w.decideProv(label, c, useHook, "")
 }
@@ -1146,6 +1193,9 @@ func (w *worldExec) decideProv(label string, c *CheckSpec, useHook bool, prov st
 	}
 	if prov == "dlg-json" || prov == "all-json" {
 		inner = jsonLoader{w}
+	}
+	if prov == "dlg-stream" {
+		inner = &streamLoader{w: w}
 	}
 	ld := &faultLoader{inner: inner, faults: c.LFaults, o: o}
 	ld.swap = func(label string) (*delegation.Token, string) {
